@@ -45,7 +45,7 @@ class C09(Prop):
             'rank, no exception, no protocol violation; (b) continuation bit-identical to the uninterrupted twin when step c is a refresh step or '
             'the live second-order data had been computed from the saved factors at the same (baked) damping, otherwise bit-identical to the run '
             'that recomputes second-order data from its own factors at boundary c (same-object reload); (c) a state with a layer removed or '
-            'added raises ValueError. Non-trivial: 0 < c < T with a non-refresh step in the continuation; multi-rank share W >= 2.')
+            'added raises ValueError; (d) a state dict kept alive in memory (not pickled) is unchanged after further training steps. Non-trivial: 0 < c < T with a non-refresh step in the continuation; multi-rank share W >= 2.')
     assumptions = ['compute_inverses=False only when step c is a refresh step; include_factors=False only when step c is both a factor-update and a refresh step (documented)',
                    'the numerical correctness of second-order data recomputed from restored factors is decided against refkfac in C05 (ckpt operation); here relations are bit-exact',
                    'vkit/simdist for the multi-rank share']
@@ -82,9 +82,15 @@ class C09(Prop):
                 return None, str(res.violations[0])
             return res.results, None
 
-        full, err = run([train(t) for t in range(T)])
+        c0 = case['cs'][0]
+        full, err = run([train(t) for t in range(c0)] + [{'op': 'snapshot'}] + [train(t) for t in range(c0, T)] + [{'op': 'check_snapshot'}])
         if err:
             return violation(f'uninterrupted run failed: {err}', 'uninterrupted-run', labels=labels)
+        for rank in range(len(full)):
+            mutated = [r for r in full[rank] if r['op'] == 'check_snapshot'][0]['snapshot_mutated']
+            if mutated:
+                return violation(f'state_dict() taken at boundary {c0} and kept in memory changed while training continued to step {T} (rank {rank}): {mutated}',
+                                 'saved-state-mutated', labels=labels)
         nontrivial = recompute_branch = identical_branch = no_factors = False
         for c in case['cs']:
             refresh_c = c % _at(hp['inv_update_steps'], c) == 0
